@@ -35,7 +35,11 @@ class GeminiProtocol(BaseGopherProtocol):
         selector = url_parts.path
         searchrequest = url_parts.query
 
-        if selector.startswith(self.query_prefix):
+        # Only the prefix as a whole path segment: a file that happens to be
+        # called GEMINI-QUERY.txt is an ordinary document.
+        if selector == self.query_prefix or selector.startswith(
+            self.query_prefix + "/"
+        ):
             self.handle_input(selector, searchrequest)
             return
 
